@@ -10,6 +10,14 @@ with list rewards compared positionally and reward functions evaluated on the *n
 interactions the index of the logged action inside the action set is preserved and the logged
 reward/probability are unchanged.  The "before" side is always computed on a freshly built, untouched copy of
 the generated interactions, so a filter that mutates its input cannot corrupt the oracle.
+
+About a quarter of the cases are *collections*: two or three different environments (other feature names, levels,
+action kinds, sizes) inside one Environments object, every shortcut called once for all of them, the resulting
+environments read in a generated order (each at least once, some again; raw, through [] or by iteration, i.e. with the
+automatic Finalize; one after the other or interleaved).  Every read is judged on its own by the same relation against
+the untouched interactions of the environment it came from, so anything a shortcut lets one environment's data do to
+another environment's actions/rewards (shared filter objects, tables, generators) is seen.  Densify(method='lookup')
+is given the smallest n_feats for which every single environment is inside its documented no-collision regime.
 """
 from collections import Counter
 
@@ -21,18 +29,26 @@ RULE  = ("a case is one seeded environment (interaction kind x action kind x rew
          "Batch/Unbatch, Finalize; as filter objects or as Environments shortcuts); the oracle is evaluated after "
          "every prefix of the chain; distinct & non-trivial = distinct (interaction kind, action kind, reward "
          "kind, feedback kind, variation, via, filter-prefix with parameters) whose prefix really changed the "
-         "representation of the actions or rebuilt the reward object")
+         "representation of the actions or rebuilt the reward object; ~28% of the cases are collections of 2-3 such "
+         "environments (own or overlapping feature names / levels) in one Environments object, the chain applied through "
+         "the shortcuts only, read in a generated order (again / raw / [] / iteration / interleaved), each read judged "
+         "against its own environment; distinct = distinct (member kinds, chain, read modes)")
 PLAN  = {"quick":    {"shards": 16, "cases": 32000,   "timeout": 600,  "budget_s": 75},
          "thorough": {"shards": 16, "cases": 1200000, "timeout": 3000, "budget_s": 780}}
 REQUIRED = ["oracle.vector.rewards.function", "oracle.vector.rewards.list", "oracle.vector.feedbacks",
             "oracle.logged.index", "oracle.logged.reward_probability", "oracle.batch.callable_column",
             "oracle.continuous.probe", "oracle.representation.consistent", "oracle.shortcuts.finalized", "oracle.composed==stepwise",
+            "oracle.collection.read", "oracle.collection.read.first", "oracle.collection.read.after-another", "oracle.collection.read.again",
+            "oracle.collection.read.interleaved", "oracle.collection.read.raw", "oracle.collection.read.fin", "oracle.collection.read.iter",
+            "oracle.collection.lookup_shared_table_would_overflow",
             "changed.Repr", "changed.Flatten", "changed.Sparsify", "changed.Densify", "changed.Noise",
             "changed.Finalize", "changed.Batch"]
 ASSUMPTIONS = [
     "only action/context noise is configured (reward noise changes rewards by design); Cycle and Binary are not part of the property",
-    "an interaction whose actions collide into equal values right after Densify(action=True) or action Noise is discarded (counted in discarded.collision): the i-th action is then ill-defined for a reward function",
-    "Densify(method='lookup') is given n_feats >= the number of distinct feature names (its documented no-collision regime)",
+    "an interaction whose actions collide into equal values right after hashing Densify(action=True) or action Noise is discarded (counted in discarded.collision): the i-th action is then ill-defined for a reward function; after Densify(method='lookup') this is excused only when the environment itself presented more feature names than n_feats (counted in skipped.lookup_overfull)",
+    "Densify(method='lookup') is given n_feats >= the number of distinct feature names of every single environment (its documented no-collision regime; n_feats is per environment, as Environments.dense documents)",
+    "in a collection an environment is judged only if the same chain, as fresh filter objects over that environment alone, ran and held; action noise in collections is gaussian, so that two noisy actions coincide with probability 0 whatever the realisation",
+    "which source environment a read belongs to is taken from the 'id' entry of the pipeline's params",
     "action sets hold distinct actions of one homogeneous structure (same length, nested/categorical entries at the same positions), the regime Flatten and Repr document; Sparsify is not combined with empty (continuous) action sets",
     "reward functions are compared only where the original function is defined on the original action (e.g. HammingReward on a non-iterable action raises before any filter and is skipped, counted in skipped.undefined_before)",
     "membership of the logged action in the new action set is Python equality, the relation coba's own reward classes use",
@@ -273,31 +289,44 @@ def gen_context(rng, ckind, shape):
 CKINDS = ["none", "num", "str", "cat", "cat", "dense", "dense_cat", "dense_cat", "nested", "sparse", "sparse_cat"]
 
 def gen_filter(rng, st):
-    """st: tracker {batched, continuous}; returns one filter spec"""
+    """st: tracker {batched, continuous, coll}; returns one filter spec.  coll = the chain is for a collection of
+    environments: Densify/Sparsify are drawn more often, action noise is gaussian only (so that no two noisy actions can
+    coincide, whatever the realisation) and a seed list may be given (Environments.noise then multiplies the environments)"""
     r = rng.random()
+    coll = st.get("coll", False)
     if st["batched"]:
         return rng.choice([{"f": "Unbatch"}, {"f": "Unbatch"}, {"f": "Finalize", "safe": True}])
-    if r < .30: return {"f": "Repr", "cc": rng.choice(CATS), "ca": rng.choice(CATS + ["onehot", "onehot_tuple"])}
-    if r < .42: return {"f": "Flatten"}
-    if r < .56 and not st["continuous"]:
+    t = [.22, .30, .45, .76, .86, .92, .94] if coll else [.30, .42, .56, .70, .82, .90, .93]
+    if r < t[0]: return {"f": "Repr", "cc": rng.choice(CATS), "ca": rng.choice(CATS + ["onehot", "onehot_tuple"])}
+    if r < t[1]: return {"f": "Flatten"}
+    if r < t[2] and not st["continuous"]:
         c, a = rng.choice([(True, True), (False, True), (True, False), (True, True)])
         return {"f": "Sparsify", "c": c, "a": a}
-    if r < .70:
+    if r < t[3]:
         c, a = rng.choice([(True, True), (False, True), (True, False), (True, True)])
-        m = rng.choice(["lookup", "hashing"])
-        n = rng.choice([24, 40]) if m == "lookup" else rng.choice([5, 16, 64, 400])
+        m = rng.choice(["lookup", "lookup", "hashing"] if coll else ["lookup", "hashing"])
+        # "tight" is resolved by resolve_tight() into the smallest n_feats (plus a small slack) that keeps every single
+        # environment inside lookup's documented no-collision regime
+        n = rng.choice(["tight", "tight", "tight", 24] if coll else [24, 40, "tight"]) if m == "lookup" else rng.choice([5, 16, 64, 400])
         return {"f": "Densify", "n": n, "m": m, "c": c, "a": a}
-    if r < .82:
-        a = rng.choice([["g", 0, 1], ["g", 2, 0.5], ["i", 1, 3], [0, 1], "fn", ["g", 0, 1], None])
+    if r < t[4]:
+        if coll:
+            a = rng.choice([["g", 0, 1], ["g", 2, 0.5], [0, 1], ["g", 0, 1], None])
+        else:
+            a = rng.choice([["g", 0, 1], ["g", 2, 0.5], ["i", 1, 3], [0, 1], "fn", ["g", 0, 1], None])
         c = rng.choice([None, None, ["g", 0, 1], ["i", 0, 2]])
         if a is None and c is None: c = ["g", 0, 1]
-        return {"f": "Noise", "c": c, "a": a, "s": rng.randint(0, 99)}
-    if r < .90: return {"f": "Batch", "k": rng.choice([1, 2, 2, 3, 4])}
-    if r < .93: return {"f": "Unbatch"}
+        sd = rng.randint(0, 99)
+        if coll and not st.get("seedlist") and rng.random() < .3:
+            sd = [sd, sd + 1 + rng.randint(0, 9)]; st["seedlist"] = True
+        return {"f": "Noise", "c": c, "a": a, "s": sd}
+    if r < t[5]: return {"f": "Batch", "k": rng.choice([1, 2, 2, 3, 4])}
+    if r < t[6]: return {"f": "Unbatch"}
     return {"f": "Finalize", "safe": rng.random() < .6}
 
-def gen_case(rng):
-    ikind = rng.choice(["sim", "sim", "sim", "grounded", "logged", "logged", "logged_plain", "continuous"])
+def gen_env(rng, ikind=None, akind=None, ns=0, akinds=AKINDS):
+    """one environment (no chain): kinds, action sets, rewards / feedbacks / logged fields of 1-5 interactions"""
+    if ikind is None: ikind = rng.choice(["sim", "sim", "sim", "grounded", "logged", "logged", "logged_plain", "continuous"])
     n_int = rng.choice([1, 2, 3, 3, 4, 5])
     spec = {"ikind": ikind}
     if ikind == "continuous":
@@ -308,8 +337,8 @@ def gen_case(rng):
         rws = [{"k": "l1", "am": rng.choice([0.3, 1, 0.5, 2.25, 0])} for _ in range(n_int)]
         rkind = "l1"
     else:
-        akind = rng.choice(AKINDS)
-        sh = gen_shape(rng, akind)
+        if akind is None or akind == "none": akind = rng.choice(akinds)
+        sh = gen_shape(rng, akind, ns)
         spec["akind"] = akind
         vary = rng.choice(["constant", "constant", "varying", "first2same", "resized"])
         n_act = rng.choice([1, 2, 2, 3, 3, 4, 5])
@@ -325,8 +354,9 @@ def gen_case(rng):
     spec["actions"] = acts
     spec["rkind"] = rkind
     ck = rng.choice(CKINDS)
-    csh = {"L": rng.sample(["p", "q", "r", "s"], 3), "cont": rng.choice(["l", "t"]), "d": rng.randint(2, 3)}
+    csh = {"L": rng.sample(_pool(["p", "q", "r", "s"], ns), 3), "cont": rng.choice(["l", "t"]), "d": rng.randint(2, 3)}
     csh["p"] = rng.randrange(csh["d"])
+    if ns: csh["keys"] = _pool(["f", "g", "h"], ns)
     spec["ckind"] = ck
     spec["context"] = [gen_context(rng, ck, csh) for _ in range(n_int)]
     spec["fkind"] = None
@@ -342,8 +372,10 @@ def gen_case(rng):
     if ikind in ("logged", "logged_plain"):
         has_p = rng.random() < .75     # a log either records propensities or it does not (same keys in every interaction)
         spec["logged"] = [{"i": rng.randrange(len(a)), "r": rng.choice(RVALS), "p": rng.choice([0.25, 0.5, 1, 0.125]) if has_p else None} for a in acts]
-    # ---- chain
-    st = {"batched": False, "continuous": ikind == "continuous"}
+    return spec
+
+def gen_chain(rng, continuous, coll=False):
+    st = {"batched": False, "continuous": continuous, "coll": coll}
     chain = []
     L = rng.choice([1, 1, 2, 2, 3, 3, 4])
     while len(chain) < L:
@@ -353,9 +385,66 @@ def gen_case(rng):
         if f["f"] == "Batch": st["batched"] = True
         if f["f"] in ("Unbatch",): st["batched"] = False
         if f["f"] == "Finalize" and f.get("safe"): pass       # BatchSafe re-batches
-    spec["chain"] = chain
+    return chain
+
+def sparse_names(rows, c, a):
+    """the feature names a Densify(context=c, action=a) is asked to index in these (un-batched) interactions"""
+    from coba.primitives import Sparse
+    names = set()
+    for r in rows:
+        vals = []
+        if c: vals.append(r.get("context"))
+        if a: vals += list(r.get("actions") or []) + [r.get("action")]
+        for v in vals:
+            if isinstance(v, Sparse): names.update(v.keys())
+    return names
+
+def resolve_tight(members, chain, rng):
+    """replaces n='tight' of every lookup Densify by max over the environments of the number of names that environment
+    alone presents to this step (so each environment is inside the documented no-collision regime), plus 0-2"""
+    for idx, fs in enumerate(chain):
+        if fs["f"] != "Densify" or fs["n"] != "tight": continue
+        counts = [1]
+        for ms in members:
+            try:
+                cur = build(ms)
+                for g in chain[:idx]: cur = list(make_filter(g).filter(cur))
+                counts.append(len(sparse_names(rows_of(cur), fs["c"], fs["a"])))
+            except Exception:
+                pass
+        fs["n"] = max(counts) + rng.choice([0, 0, 0, 1, 2])
+
+def gen_case(rng):
+    if rng.random() < COLLECTION_SHARE: return gen_collection(rng)
+    spec = gen_env(rng)
+    spec["chain"] = gen_chain(rng, spec["ikind"] == "continuous")
+    resolve_tight([spec], spec["chain"], rng)
     spec["via"] = rng.choice(["filters", "filters", "shortcuts"])
     return spec
+
+COLLECTION_SHARE = .28
+
+def gen_collection(rng):
+    """2-3 different environments in one Environments object, the chain applied through the Environments shortcuts
+    only, the resulting environments read in a generated order (every one at least once, some again, raw / finalized /
+    by iteration, one after the other or interleaved)"""
+    m = rng.choice([2, 2, 3])
+    own_ns = rng.random() < .7            # own feature names / levels per environment, else the same pools (overlap)
+    first = gen_env(rng, akinds=AKINDS_COLL)
+    members = [first]
+    for k in range(1, m):
+        sib = rng.random() < .7           # the usual collection: the same kind of data with other names / levels
+        members.append(gen_env(rng, ikind=first["ikind"] if (sib or rng.random() < .5) else None,
+                               akind=first["akind"] if sib else None, ns=k if own_ns else 0, akinds=AKINDS_COLL))
+    chain = gen_chain(rng, any(ms["ikind"] == "continuous" for ms in members), coll=True)
+    resolve_tight(members, chain, rng)
+    n_out = m
+    for fs in chain:
+        if fs["f"] == "Noise" and isinstance(fs["s"], list): n_out *= len(fs["s"])
+    order = list(range(n_out)); rng.shuffle(order)
+    order += [rng.randrange(n_out) for _ in range(rng.choice([0, 1, 1, 2]))]
+    reads = [[pos, rng.choice(["raw", "fin", "fin", "iter"])] for pos in order]
+    return {"collection": True, "members": members, "chain": chain, "reads": reads, "interleave": rng.random() < .3}
 
 # ------------------------------------------------------------------------------------------ building
 def build(spec):
@@ -395,7 +484,7 @@ def make_filter(fs):
     if k == "Flatten":  return F.Flatten()
     if k == "Sparsify": return F.Sparsify(fs["c"], fs["a"])
     if k == "Densify":  return F.Densify(fs["n"], fs["m"], fs["c"], fs["a"])
-    if k == "Noise":    return F.Noise(_noise_arg(fs["c"]), _noise_arg(fs["a"]), None, fs["s"])
+    if k == "Noise":    return F.Noise(_noise_arg(fs["c"]), _noise_arg(fs["a"]), None, fs["s"][0] if isinstance(fs["s"], list) else fs["s"])
     if k == "Batch":    return F.Batch(fs["k"])
     if k == "Unbatch":  return F.Unbatch()
     if k == "Finalize": return F.BatchSafe(F.Finalize()) if fs.get("safe") else F.Finalize()
@@ -421,6 +510,7 @@ def apply_shortcut(envs, fs):
 def fname(fs):
     """mechanism-level name of a filter with the parameters that select its code path (no seeds / sizes)"""
     k = fs["f"]
+    if k == "Then":     return fname(fs["inner"]) + "+BatchSafe(Finalize)"
     if k == "Repr":     return f"Repr(ctx={fs['cc']},act={fs['ca']})"
     if k == "Sparsify": return f"Sparsify(context={fs['c']},action={fs['a']})"
     if k == "Densify":  return f"Densify({fs['m']},context={fs['c']},action={fs['a']})"
@@ -431,6 +521,7 @@ def fname(fs):
 def fsig(fs, field):
     """coarser than fname: only what matters for the mechanism that failed on <field>"""
     k = fs["f"]
+    if k == "Then":     return fsig(fs["inner"], field) + "+Finalize"     # the Environments pipeline read through [] / iteration
     if k == "Repr":
         if field == "action": return f"Repr(act={fs['ca']},ctx={'same' if fs['cc'] == fs['ca'] else 'other'})"
         return f"Repr(act={fs['ca']})"
@@ -498,12 +589,16 @@ def vec_mode(v0, v1):
 
 PROBES = [0.0, 0.3, 1.0]
 
-def check_prefix(orig, outs, step, chain, prev_rows, note, viol, info):
+def check_prefix(orig, outs, step, chain, prev_rows, note, viol, info, sigfs=None):
     """compares the output of chain[:step+1] with the untouched originals.  prev_rows = rows entering chain[step]
-    (for signatures only).  Returns rows (un-batched) or None when nothing can be compared."""
-    fs = chain[step]
+    (for signatures only); sigfs = the filter spec the signatures name (default chain[step]).  Returns rows
+    (un-batched) or None when nothing can be compared."""
+    fs = sigfs or chain[step]
     nviol0 = len(viol)
-    may_collide = any((f["f"] == "Densify" and f["a"]) or (f["f"] == "Noise" and f["a"]) for f in chain[:step+1])
+    # two actions may legitimately coincide after action Noise and after hashing Densify; after lookup Densify only when
+    # the environment presented more names than n_feats (outside the documented no-collision regime)
+    may_collide = any((f["f"] == "Densify" and f["a"] and (f["m"] != "lookup" or info.get("lookup_overfull"))) or (f["f"] == "Noise" and f["a"])
+                      for f in chain[:step+1])
     try:
         rows = rows_of(outs)
     except Exception as e:
@@ -696,24 +791,20 @@ def summarize(rows):
         out.append(d)
     return out
 
-def check_case(spec, ctx=None):
-    from coba.environments import Environments
-    from coba.pipes import Pipes
-    viol = []
-    def note(name, n=1):
-        if ctx: ctx.count(name, n)
-    chain = spec["chain"]
+def _stepwise(spec, chain, ctx, note, viol, tag=()):
+    """every prefix of the chain (fresh filter objects, one environment) is itself a chain and is checked against the
+    untouched originals.  Returns {ok, orig, final_rows, info}; ok = every step ran and no prefix violated."""
     orig = build(spec)
     info = {"logged_index": [lg["i"] for lg in spec["logged"]] if spec["ikind"] == "logged" else None, "changed": False, "dead": set()}
-    base_key = (spec["ikind"], spec["akind"], spec["rkind"], spec["fkind"], spec["vary"], spec["via"], spec["ckind"] in ("cat", "dense_cat", "sparse_cat"))
-
-    # ---- stepwise: every prefix of the chain is itself a chain and is checked against the originals
+    base_key = (spec["ikind"], spec["akind"], spec["rkind"], spec["fkind"], spec["vary"], spec.get("via"), spec["ckind"] in ("cat", "dense_cat", "sparse_cat")) + tuple(tag)
     cur = build(spec)
     prev_rows = cur
     final_rows = None
     ok = True
     for step, fs in enumerate(chain):
         before = len(viol)
+        if fs["f"] == "Densify" and fs["m"] == "lookup" and fs["a"] and len(sparse_names(prev_rows, fs["c"], fs["a"])) > fs["n"]:
+            info["lookup_overfull"] = True; note("skipped.lookup_overfull")
         try:
             f = make_filter(fs)
             cur = list(f.filter(cur))
@@ -737,7 +828,21 @@ def check_case(spec, ctx=None):
             ok = False; break          # later steps would only repeat the first break
         prev_rows = rows
         final_rows = rows
-    if not ok: return _dedup(viol)
+    return {"ok": ok, "orig": orig, "final_rows": final_rows, "info": info}
+
+def check_case(spec, ctx=None):
+    from coba.environments import Environments
+    from coba.pipes import Pipes
+    if spec.get("collection"): return check_collection(spec, ctx)
+    viol = []
+    def note(name, n=1):
+        if ctx: ctx.count(name, n)
+    chain = spec["chain"]
+
+    # ---- stepwise: every prefix of the chain is itself a chain and is checked against the originals
+    sw = _stepwise(spec, chain, ctx, note, viol)
+    orig, final_rows, info = sw["orig"], sw["final_rows"], sw["info"]
+    if not sw["ok"]: return _dedup(viol)
 
     # ---- the same chain composed lazily (generators all the way), as filter objects or through the shortcuts
     try:
@@ -774,11 +879,121 @@ def check_case(spec, ctx=None):
                              f"reading Environments[...][0] after {[fname(f) for f in chain]} raised {e!r}"))
     return _dedup(viol)
 
+def check_collection(spec, ctx=None):
+    """Several different environments in ONE Environments object; the chain is applied with the Environments shortcuts
+    (each called once, for all environments together) and the resulting environments are read in the generated order.
+    Every read is judged on its own: the output of the environment that came from member k against the untouched
+    interactions of member k, by the same relation as a single environment (check_prefix).  A member is judged only when
+    the same chain, as fresh filter objects over that member alone, ran and held (otherwise whatever is wrong is not
+    about the collection and is reported under the single-environment signature)."""
+    from coba.environments import Environments
+    viol = []
+    def note(name, n=1):
+        if ctx: ctx.count(name, n)
+    members, chain = spec["members"], spec["chain"]
+    FIN = {"f": "Finalize", "safe": True}
+
+    ref = [_stepwise(ms, chain, ctx, note, viol, tag=("member",)) for ms in members]
+    note("collection.members", len(members))
+    note("collection.members_judged", sum(r["ok"] for r in ref))
+
+    # would one index table over everything overflow where each environment's own table does not?
+    tight = []
+    for idx, fs in enumerate(chain):
+        if fs["f"] == "Densify" and fs["m"] == "lookup" and fs["a"]:
+            tot, mx = set(), 0
+            for ms in members:
+                try:
+                    cur = build(ms)
+                    for g in chain[:idx]: cur = list(make_filter(g).filter(cur))
+                    nm = sparse_names(rows_of(cur), fs["c"], fs["a"])
+                    tot |= {str(x) for x in nm}; mx = max(mx, len(nm))
+                except Exception: pass
+            if mx <= fs["n"] < len(tot): tight.append(idx)
+
+    try:
+        envs = Environments.from_custom(*[ListEnvAdapter(ms, k) for k, ms in enumerate(members)])
+        for fs in chain: envs = apply_shortcut(envs, fs)
+        n_out = len(envs)
+    except Exception as e:
+        if all(r["ok"] for r in ref):
+            viol.append((f"several-environments/shortcuts/mode=raise:{type(e).__name__}", f"building {[fname(f) for f in chain]} over {len(members)} environments raised {e!r}"))
+        return _dedup(viol)
+
+    # ---- start the reads (sequentially, or all opened first and advanced round-robin)
+    jobs = []
+    for pos, mode in spec["reads"]:
+        pos %= n_out
+        try:
+            env = envs._envs[pos] if mode == "raw" else (envs[pos] if mode == "fin" else list(envs)[pos])
+            k = env.params.get("id")
+        except Exception as e:
+            viol.append((f"several-environments/shortcuts/mode=raise:{type(e).__name__}", f"taking environment {pos} ({mode}) raised {e!r}")); continue
+        if not isinstance(k, int) or not 0 <= k < len(members): note("collection.unidentified"); continue
+        jobs.append({"k": k, "mode": mode, "env": env, "outs": [], "err": None})
+    seen = []
+    if spec.get("interleave") and len(jobs) > 1:
+        for j in jobs:
+            j["where"] = "among-others"; j["detail"] = "interleaved"
+            try: j["it"] = iter(j["env"].read())
+            except Exception as e: j["err"] = e; j["it"] = None
+        live = [j for j in jobs if j["it"] is not None]
+        while live:
+            for j in list(live):
+                try: j["outs"].append(next(j["it"]))
+                except StopIteration: live.remove(j)
+                except Exception as e: j["err"] = e; live.remove(j)
+    else:
+        for j in jobs:
+            j["where"] = "among-others" if seen else "first"; j["detail"] = "again" if j["k"] in seen else ("after another" if seen else "first")
+            seen.append(j["k"])
+            try: j["outs"] = list(j["env"].read())
+            except Exception as e: j["err"] = e
+
+    # ---- judge every read on its own
+    any_changed = False
+    for j in jobs:
+        k, r = j["k"], ref[j["k"]]
+        if not r["ok"]: note("collection.read_unjudged"); continue
+        fchain = chain + ([FIN] if j["mode"] != "raw" else [])
+        pre = f"several-environments/read={j['where']}/"
+        sigfs = chain[-1] if j["mode"] == "raw" else {"f": "Then", "inner": chain[-1]}
+        if j["err"] is not None:
+            e = j["err"]
+            if j["mode"] != "raw" and _attribute_raise(FIN, r["final_rows"]) is None:
+                _note_bare_raise(ctx, note, FIN, e, r["final_rows"][0] if r["final_rows"] else {}); continue
+            viol.append((pre + f"{fsig(sigfs, 'rows')}/mode=raise:{type(e).__name__}",
+                         f"reading environment {k} ({j['mode']}) of {len(members)} after {[fname(f) for f in chain]} raised {e!r}; alone it reads fine")); continue
+        info = {"logged_index": r["info"]["logged_index"], "changed": False, "dead": set(r["info"]["dead"]),
+                "lookup_overfull": r["info"].get("lookup_overfull", False)}
+        mine = []
+        check_prefix(r["orig"], j["outs"], len(fchain) - 1, fchain, r["final_rows"], note, mine, info, sigfs)
+        note("oracle.collection.read")
+        note("oracle.collection.read." + j.get("detail", j["where"]).replace(" ", "-"))
+        note("oracle.collection.read." + j["mode"])
+        if tight: note("oracle.collection.lookup_shared_table_would_overflow")
+        any_changed = any_changed or info["changed"]
+        for sig, what in mine:
+            viol.append((pre + sig, f"environment {k} of {len(members)} (read {j.get('detail', j['where'])}, {j['mode']}; reads {spec['reads']}, interleave={bool(spec.get('interleave'))}): {what}"))
+    # ---- name the shortcut that is responsible: the shortest prefix of the chain that already breaks over the collection
+    nref = len(viol) - sum(1 for sg, _ in viol if sg.startswith("several-environments/"))
+    if len(viol) > nref and len(chain) > 1 and not spec.get("_noloc"):
+        for i in range(1, len(chain)):
+            try: sub = [x for x in check_collection(dict(spec, chain=chain[:i], _noloc=True)) if x[0].startswith("several-environments/")]
+            except Exception: sub = []
+            if sub:
+                viol = [x for x in viol if not x[0].startswith("several-environments/")] + [(sg, f"[already after the first {i} of {len(chain)} shortcuts] {w}") for sg, w in sub]
+                break
+    if ctx:
+        ctx.case(("collection", tuple((ms["ikind"], ms["akind"], ms["rkind"]) for ms in members), tuple(fname(f) for f in chain),
+                  tuple(sorted({(j["where"], j["mode"]) for j in jobs}))), nontrivial=any_changed)
+    return _dedup(viol)
+
 class ListEnvAdapter:
     """a minimal Environment: read() yields freshly built interactions"""
-    def __init__(self, spec): self._spec = spec
+    def __init__(self, spec, ident=None): self._spec = spec; self._id = ident
     @property
-    def params(self): return {}
+    def params(self): return {} if self._id is None else {"id": self._id}
     def read(self): return build(self._spec)
 
 def _dedup(viol):
@@ -801,8 +1016,12 @@ def run_shard(ctx):
             import traceback
             ctx.note_inconclusive(f"harness-exception {type(e).__name__}: {e} :: {traceback.format_exc()[-800:]}")
             break
-        if i < 2: ctx.sample({"ikind": spec["ikind"], "akind": spec["akind"], "rkind": spec["rkind"], "actions0": spec["actions"][0],
-                              "chain": [fname(f) for f in spec["chain"]], "via": spec["via"]})
+        if i < 2 and not spec.get("collection"):
+            ctx.sample({"ikind": spec["ikind"], "akind": spec["akind"], "rkind": spec["rkind"], "actions0": spec["actions"][0],
+                        "chain": [fname(f) for f in spec["chain"]], "via": spec["via"]})
+        elif i < 4 and spec.get("collection"):
+            ctx.sample({"collection": [{"ikind": ms["ikind"], "akind": ms["akind"], "actions0": ms["actions"][0]} for ms in spec["members"]],
+                        "chain": [fname(f) for f in spec["chain"]], "reads": spec["reads"], "interleave": spec["interleave"]})
         for sig, what in v:
             ctx.violation(sig, what, spec)
         i += 1
